@@ -60,6 +60,9 @@ func (fv *FV) calleeOf(x *ast.CallExpr) (fn *types.Func, recv ast.Expr, iface bo
 }
 
 func (fv *FV) call(e *Env, x *ast.CallExpr) Value {
+	savedCall := fv.curCall
+	fv.curCall = exprStr(x.Fun) + " (" + fv.posStr(x.Pos()) + ")"
+	defer func() { fv.curCall = savedCall }()
 	rt := fv.typeOf(x)
 	// conversion
 	if tv, ok := fv.info.Types[x.Fun]; ok && tv.IsType() {
@@ -161,7 +164,7 @@ func (fv *FV) call(e *Env, x *ast.CallExpr) Value {
 	if fv.eng.noEffect(fn) {
 		return fv.pureResult(e, fn, rt, recv, args)
 	}
-	return fv.opaqueCall(e, x, fn, recv, args, rt, isIface || fv.eng.inModule(fn))
+	return fv.opaqueCall(e, x, fn, recv, args, rt, (isIface || fv.eng.inModule(fn)) && !fv.eng.argsOnly(fn))
 }
 
 func exprStr(x ast.Expr) string { return types.ExprString(x) }
@@ -227,6 +230,7 @@ func (fv *FV) opaqueCall(e *Env, x *ast.CallExpr, fn *types.Func, recv *Value, a
 	}
 	fv.opaqueUsed[name] = true
 	if havocAll {
+		fv.note("callee without contract: %s", name)
 		fv.havocAll(e)
 	} else {
 		// external code: may write through pointer/slice/map arguments only
@@ -235,6 +239,13 @@ func (fv *FV) opaqueCall(e *Env, x *ast.CallExpr, fn *types.Func, recv *Value, a
 			all = append([]Value{*recv}, args...)
 		}
 		for _, a := range all {
+			if fn != nil && fv.eng.argsOnly(fn) && a.Type != nil {
+				if sl, ok := a.Type.Underlying().(*types.Slice); ok {
+					if b, ok := sl.Elem().Underlying().(*types.Basic); ok && b.Kind() == types.Uint8 {
+						continue // decoders read their input buffer, they do not write it
+					}
+				}
+			}
 			fv.havocReachable(e, a)
 		}
 		fv.havocAlloc(e)
@@ -721,6 +732,9 @@ func (fv *FV) bindParams(u *FuncUnit, recv *Value, args []Value) map[types.Objec
 	}
 	for i := 0; i < sig.Params().Len() && i < len(args); i++ {
 		v := args[i]
+		if _, isIface := sig.Params().At(i).Type().Underlying().(*types.Interface); isIface && v.Type != nil {
+			v.ArgType = v.Type
+		}
 		v.Type = sig.Params().At(i).Type()
 		bind[sig.Params().At(i)] = v
 	}
@@ -836,6 +850,14 @@ func (fv *FV) modLocations(pre *Env, cl *Clause, bind map[types.Object]Value) []
 		return []modLoc{{kind: "all"}}
 	}
 	if call, ok := x.(*ast.CallExpr); ok {
+		if fn, _, _ := fv.calleeOf(call); fn != nil && fn.Name() == "gh_kvState" {
+			// the ghost consensus state tree (T-KV)
+			return []modLoc{
+				{kind: "cell", comp: kvDom, ref: tNull, sort: arrSort(sInt, sBool)},
+				{kind: "cell", comp: kvVal, ref: tNull, sort: arrSort(sInt, sInt)},
+				{kind: "cell", comp: kvWrites, ref: tNull, sort: sInt},
+			}
+		}
 		if fn, _, _ := fv.calleeOf(call); fn != nil && fn.Name() == "gh_anyOf" && len(call.Args) == 1 {
 			// modifies anyOf(x.f): field f of any object (whole component)
 			lv := fv.lvalue(pre, call.Args[0])
@@ -844,6 +866,16 @@ func (fv *FV) modLocations(pre *Env, cl *Clause, bind map[types.Object]Value) []
 			}
 			return []modLoc{{kind: "all"}}
 		}
+	}
+	if _, isIdent := x.(*ast.Ident); isIdent && isInterfaceType(t) {
+		// modifies <interface-typed parameter>: use the static type of the actual argument
+		v := fv.expr(pre, x)
+		if v.ArgType != nil {
+			if p, ok := v.ArgType.Underlying().(*types.Pointer); ok && isObjectType(p.Elem()) {
+				return []modLoc{{kind: "object", ref: v.T, typ: p.Elem()}}
+			}
+		}
+		return []modLoc{{kind: "all"}}
 	}
 	if fv.isGhostMapExpr(x) {
 		lv := fv.lvalue(pre, x)
@@ -1150,6 +1182,8 @@ func (fv *FV) ghostBuiltin(e *Env, x *ast.CallExpr, fn *types.Func) Value {
 	case "gh_kvVal":
 		k := fv.expr(e, x.Args[0])
 		return Value{K: kScalar, T: sel(fv.kvValArr(e), k.T)}
+	case "gh_kvDomain":
+		return Value{K: kScalar, T: fv.kvDomArr(e)}
 	case "gh_kvWrites":
 		return Value{K: kScalar, T: fv.loadComp(e, kvWrites, sInt, tNull)}
 	case "gh_bytesId":
@@ -1385,4 +1419,9 @@ func (fv *FV) mapCardFacts(e *Env, m Term, mt *types.Map) {
 	fv.assume(e, Term{fmt.Sprintf("(forall ((a %s) (b %s)) (! (=> (and (select %s a) (select %s b) (not (= a b))) (>= %s 2)) :pattern ((select %s a) (select %s b))))", ks, ks, dom.S, dom.S, l.S, dom.S, dom.S), sBool})
 	fv.assume(e, Term{fmt.Sprintf("(forall ((a %s)) (! (=> (select %s a) (>= %s 1)) :pattern ((select %s a))))", ks, dom.S, l.S, dom.S), sBool})
 	fv.trustedUsed["Go map: len(m) is the cardinality of its key set (consequences for len<=0, len<=1, len>=2 assumed)"] = true
+}
+
+func isInterfaceType(t types.Type) bool {
+	_, ok := t.Underlying().(*types.Interface)
+	return ok
 }
